@@ -2,7 +2,7 @@
    MatrixCardVerifier::get_matrix_coordinates translated from src/matrix_card.rs on this run are the
    model's functions (u8 fields and arguments; the usize arithmetic of the lookup cannot overflow). *)
 From Coq Require Import List NArith Lia ZifyBool ZifyN ZifyNat.
-From WS Require Import lib.Bytes lib.Res lib.StepLoop Consts Steps model.Arr model.MatrixCard.
+From WS Require Import lib.Bytes lib.Res lib.StepLoop Consts Steps model.Arr model.MatrixCard proofs.MatrixCard.
 Import ListNotations.
 Local Open Scope N_scope.
 
@@ -34,4 +34,23 @@ Proof.
   destruct (N.of_nat (length data) <? (y * w + x) * d + d) eqn:E5.
   - rewrite Bool.orb_true_r. reflexivity.
   - destruct ((y * w + x) * d + d <? (y * w + x) * d) eqn:E6; [lia|]. reflexivity.
+Qed.
+
+(* property level, about the translated function: on a card built from its data the lookup at (x, y)
+   returns exactly the digits printed at row y, column x *)
+Theorem matrix_source_lookup : forall d w h data x y,
+  1 <= d -> d < 256 -> w < 256 -> 1 <= w * h <= 255 -> length data = N.to_nat (d * h * w) -> x < w -> y < h ->
+  exists cells cell,
+    printer_cells {| c_digits := d; c_width := w; c_height := h; c_data := data |} = Ok cells /\
+    tr_matrix_get_number_at_coordinates d w h data x y = Some cell /\
+    nth_error cells (N.to_nat (y * w + x)) = Some cell /\
+    cell = firstn (N.to_nat d) (skipn (N.to_nat ((y * w + x) * d)) data).
+Proof.
+  intros d w h data x y Hd Hd2 Hw Hwh Hl Hx Hy.
+  destruct (lookup d w h data x y Hd Hwh Hl Hx Hy) as (c & cells & cell & Hc & Hp & Hg & Hn & He & _).
+  unfold from_data in Hc.
+  destruct (N.of_nat (length data) =? get_matrix_card_size d h w); [|discriminate]. injection Hc as <-.
+  exists cells, cell. split; [exact Hp|]. split; [|split; assumption].
+  pose proof (matrix_get_number_at_coordinates_translated {| c_digits := d; c_width := w; c_height := h; c_data := data |} x y) as T.
+  cbn [c_digits c_width c_height c_data] in T. rewrite T by (try assumption; nia). rewrite Hg. reflexivity.
 Qed.
